@@ -605,3 +605,24 @@ add('m-c15-slice-route-nan-missing', 'emd/_cycles_support.py', "        return n
 add('m-c15-slice-route-range-benign', 'emd/_cycles_support.py', "        for idx, s in enumerate(slices):\n            if s is None:",
     "        for idx in range(len(slices)):\n            s = slices[idx]\n            if s is None:", 'benign', ['C15'])
 add('m-l4-round-decimals', CY, "np.round(100*(mask.sum()/phase.shape[0]), 2)", "np.round(2, 100*(mask.sum()/phase.shape[0]))", 'breaking', ['C13', 'C12'], 'L4')
+add('m-c03-second-layer-store-shape', S, "        tmp = sift_func(IA[:, ii], **sift_args)\n        imf2[:, ii, :tmp.shape[1]] = tmp", "        tmp = sift_func(IA[:, ii], **sift_args)\n        imf2[:, ii, :tmp.shape[0]] = tmp",
+    'breaking', ['C03'], 'C03.R5')
+add('m-c03-second-layer-cap-dropped', S, "        sift_args = dict(sift_args, max_imfs=max_imfs)\n", "        sift_args = dict(sift_args)\n", 'breaking', ['C03'], 'C03.R5')
+add('m-c03-second-layer-user-cap-replaced', S, "        if ('max_imfs' not in sift_args):\n            sift_args['max_imfs'] = IA.shape[1]", "        if ('max_imfs' in sift_args):\n            sift_args['max_imfs'] = IA.shape[1]",
+    'breaking', ['C03'], 'C03.R5')
+add('m-c03-second-layer-setdefault-benign', S, "        if ('max_imfs' not in sift_args):\n            sift_args['max_imfs'] = IA.shape[1]", "        sift_args.setdefault('max_imfs', IA.shape[1])",
+    'benign', ['C03', 'C06'])
+add('m-c03-mask-cap-raised', S, "        if len(mask_freqs) < max_imfs:\n            max_imfs = len(mask_freqs)", "        if len(mask_freqs) > max_imfs:\n            max_imfs = len(mask_freqs)",
+    'breaking', ['C03'], 'C03.R')
+add('m-c07-nphases-dropped', S, "        next_imf, continue_sift = get_next_imf_mask(proto_imf, mask_freqs[imf_layer], amp,\n                                                    nphases=nphases,\n",
+    "        next_imf, continue_sift = get_next_imf_mask(proto_imf, mask_freqs[imf_layer], amp,\n", 'breaking', ['C07'], 'C07.R2')
+add('m-c07-numeric-first-freq-branch', S, "    elif first_mask_mode < .5:\n        if first_mask_mode <= 0", "    elif first_mask_mode > .5:\n        if first_mask_mode <= 0",
+    'breaking', ['C07'], 'C07.R2')
+add('m-c07-float-isinstance-swapped', S, "    elif mask_freqs in ['zc', 'if'] or isinstance(mask_freqs, float):", "    elif mask_freqs in ['zc', 'if'] or isinstance(float, mask_freqs):",
+    'breaking', ['C07'], 'C07.R2')
+add('m-c07-descending-phases-benign', S, "    phases = np.linspace(0, (2*np.pi), nphases+1)[:nphases]", "    phases = np.linspace(2*np.pi, 0, nphases+1)[:nphases]", 'benign', ['C07'])
+add('m-c01-thresh-mean', S, "        if np.abs(next_imf).sum() < sift_thresh:\n            logger.info('Finishing sift: reached threshold {0}'.format(np.abs(next_imf).sum()))",
+    "        if np.abs(next_imf).mean() < sift_thresh:\n            logger.info('Finishing sift: reached threshold {0}'.format(np.abs(next_imf).sum()))", 'breaking', ['C01'], 'C01.R3')
+add('m-c04-log-threshold-benign', S, "            if niters == 3*max_iters//4:", "            if niters == 3*max_iters/4:", 'benign', ['C04'])
+add('m-c08-ceemd-last-column-benign', S, "    noise = noise - np.array([r[:, 0] for r in res]).T\n\n    # One IMF has been extracted so far", "    noise = noise - np.array([r[:, -1] for r in res]).T\n\n    # One IMF has been extracted so far",
+    'benign', ['C08'])
